@@ -405,6 +405,24 @@ Varable failures: {var_failed}
         self._add2Varlist([key])
         return outvar
 
+    def renameVariables(self, inplace=False, copyall=True, **newkeys):
+        """
+        Wrapper on PseudoNetCDFFile.renameVariables that updates VAR-LIST,
+        NVARS, VAR, and TFLAG
+
+        See also
+        --------
+        see PseudoNetCDFFile.renameVariables
+        """
+        oldlist = self.getVarlist(update=False)
+        outf = PseudoNetCDFFile.renameVariables(
+            self, inplace=inplace, copyall=copyall, **newkeys)
+        newlist = [newkeys.get(vk, vk) for vk in oldlist]
+        newlist = [vk for vk in newlist if vk in outf.variables]
+        setattr(outf, 'VAR-LIST', ''.join([vk.ljust(16) for vk in newlist]))
+        outf.updatemeta()
+        return outf
+
     def mask(self, *args, **kwds):
         """
         Wrapper on PseudoNetCDFFile.subsetVariables that updates VAR-LIST,
